@@ -80,7 +80,8 @@ CONSTANTS
 
 ViolKinds  == {"panic", "failflag"}
 SatKinds   == {"sat_valid", "sat_abstract"}
-UnsatKinds == {"unsat", "unsat_rc1", "unsat_shared"}
+\* "unsat_nocore": the solver answers unsat and replies to (get-unsat-core) with the empty list `()`
+UnsatKinds == {"unsat", "unsat_rc1", "unsat_shared", "unsat_nocore"}
 ToKinds    == {"unknown", "timeout"}
 ErrKinds   == {"garbage", "empty", "nonzero", "crash", "spawnfail"}
 AllKinds   == SatKinds \cup UnsatKinds \cup ToKinds \cup ErrKinds
@@ -118,7 +119,8 @@ ErrRes == Res("err", FALSE, FALSE)
 ReplyRes(k) ==
     CASE k = "sat_valid"              -> Res("sat", TRUE, FALSE)
       [] k = "sat_abstract"           -> Res("sat", FALSE, FALSE)
-      [] k \in {"unsat", "unsat_rc1"} -> Res("unsat", FALSE, FALSE)
+      \* an empty core is never recorded (`if solver_output.unsat_core:`): it names no constraint of its own query
+      [] k \in {"unsat", "unsat_rc1", "unsat_nocore"} -> Res("unsat", FALSE, FALSE)
       [] k = "unsat_shared"           -> Res("unsat", FALSE, TRUE)
       [] k \in ToKinds                -> Res("unknown", FALSE, FALSE)
       [] OTHER                        -> ErrRes
